@@ -5,7 +5,9 @@ WITNESSES = [
          old="        elif space_l == space_u:  # diagonal block", new="        else:"),
     dict(id="c06-cascade-mixed-keys", prop="C06", file=S, expect="R06a",
          old="            if spin_l < spin_u:\n                return True", new="            if spin_l < space_u:\n                return True"),
-    dict(id="c06-cascade-le", prop="C06", file=S, expect="R06a",
+    # since F33 the name keys contain the identity of the index: they are equal only for identical groups, whose exchange
+    # changes nothing (and the diagonal of a bra-ket antisymmetric tensor is zero before the comparison): <= is harmless now
+    dict(id="c06-ok-cascade-le", prop="C06", file=S, expect=None,
          old="                if lower_names < upper_names:", new="                if lower_names <= upper_names:"),
     dict(id="c06-cascade-name-number-lost", prop="C06", file=S, expect="R06a",
          old="""                lower_names = [sort_idx_canonical(s)[2:] for s in lower]
@@ -284,7 +286,7 @@ WITNESSES = [
                                   "for tensors with an equal amount "
                                   "of upper and lower indices.")
     for attr in (lambda s: s.space[0], lambda s: s.spin,
-                 lambda s: (int(s.name[1:]) if s.name[1:] else 0, s.name[0])):
+                 lambda s: (int(s.name[1:]) if s.name[1:] else 0, s.name[0], s.dummy_index)):
         key_u, key_l = [attr(s) for s in upper], [attr(s) for s in lower]
         if key_l != key_u:
             return key_l < key_u
